@@ -126,7 +126,7 @@ func resultStr(v *variants.Variant, err error, pv interface{}) string {
 		return "panic(" + panicShort(pv) + ")"
 	}
 	if err != nil {
-		return "error(" + errStr(err) + ")"
+		return "error(" + errStrS(err) + ")" // (and overwrites the error object, as its owner may)
 	}
 	return variantStr(v)
 }
@@ -287,6 +287,17 @@ type c19Harness struct {
 var c19Programs = []string{"Y(a)+Y(b)*Y(c)", "If(Y(a)>1,Y(b),Y(c))", "Y(c)[Y(b)]", "Array(Y(a),Y(b))", "a+b IN c", "a*b-d", "Max(a,b)+Min(b,d)", "-a[b]", "a IS NULL OR NOT b"}
 
 var c19Templates = []string{"{{#a}}x{{B}}{{#b}}y{{{a}}}{{/b}}{{/a}}!{{^c}}z{{/c}}", "Hello {{a}}, {{{B}}}{{#if c}}+{{/if}}", "{{#unless a}}no{{/unless}}{{#a}}{{#a}}{{a}}{{/a}}{{/a}}"}
+
+// programs whose evaluation FAILS inside a built-in (wrong argument counts and values): the error of one
+// evaluation, overwritten by its owner, must not come back from the next one
+var c19FailingPrograms = []string{"Max(a)", "Min()", "Sum(a) + 1", "Abs()", "Abs(a, b)", "If(a)", "Choose(a)", "Sqrt('x')", "Contains(a)", "a / 0", "a[99]", "Date(a)", "DayOfWeek()", "1 << -1", "zz + 1", "NoSuchFunction(1)"}
+
+func c19PurityText(trees []*enode, i int64) string {
+	if int(i) < len(trees) {
+		return trees[i].print(printStyle{})
+	}
+	return c19FailingPrograms[int(i)-len(trees)]
+}
 
 var c19FunctionPrograms = []string{
 	"Rnd() >= 0 AND Rnd() < 1 AND Random() >= 0 AND Random() < 1 AND Ticks() > 0 AND Now() IS NOT NULL",
@@ -657,8 +668,8 @@ func init() {
 			}
 			hs := c19Harnesses()
 			sp := []fw.Space{
-				{Name: "purity-expressions", N: int64(len(trees)), Timeout: 120e9, Run: func(c *fw.Ctx, i int64) { c19PurityExpr(c, trees[i].print(printStyle{}), 3) },
-					Repr: func(i int64) string { return fmt.Sprintf("expression %q, all evaluation histories of length<=3 over 3 variable sets", trees[i].print(printStyle{})) }},
+				{Name: "purity-expressions", N: int64(len(trees) + len(c19FailingPrograms)), Timeout: 120e9, Run: func(c *fw.Ctx, i int64) { c19PurityExpr(c, c19PurityText(trees, i), 3) },
+					Repr: func(i int64) string { return fmt.Sprintf("expression %q, all evaluation histories of length<=3 over 3 variable sets", c19PurityText(trees, i)) }},
 				{Name: "purity-templates", N: nT / step, Timeout: 120e9, Run: func(c *fw.Ctx, i int64) {
 					nodes := mSeq(alts, seqByIndex(len(alts), i*step), int((i*step)%1000))
 					if !mPrintable(nodes, true, true) {
